@@ -25,6 +25,18 @@ def make_prog(seed):
     p['uid'] = 940000 + seed % 50000
     p['body'] = [({'op': 'try', 'body': [s]} if s['op'] in ('in', 'out') else s) for s in p['body']]
     p['params'] = None
+    if rng.random() < 0.35:
+        # one call gets a huge argument (a long id list / a long document): its key is long
+        ins = [st['body'][0] for st in p['body'] if st['op'] == 'try' and st['body'][0]['op'] == 'in' and (st['body'][0]['args'] or st['body'][0]['kwargs'])]
+        if ins:
+            st = rng.choice(ins)
+            big = rng.choice([list(range(1000, 1000 + rng.choice([700, 1500, 5000]))), 'doc ' * rng.choice([1100, 3000]),
+                              {'ids': list(range(900)), 'note': 'x' * 5000}])
+            if st['args']:
+                st['args'][rng.randrange(len(st['args']))] = {'lit': big}
+            else:
+                st['kwargs'][rng.choice(sorted(st['kwargs']))] = {'lit': big}
+            p['has_huge_argument'] = True
     return p
 
 
